@@ -278,7 +278,8 @@ def run_check(mod, tier, seed, workers=None, keep_digests=False, extra_env=None,
             print(f"HARNESS-FAILURE property={prop}: {len(harness)} problem(s)")
             for h in harness[:3]:
                 print("  " + h[-700:].replace("\n", "\n  "))
-            return 2, evidence, digests
+            # a violation that was re-executed and reproduced stands whatever happened to another shard
+            return (1 if n_new else 2), evidence, digests
         if ev_n == 0:
             print(f"HARNESS-FAILURE property={prop}: no runs executed")
             return 2, evidence, digests
